@@ -123,6 +123,30 @@ OwnNext(n) == st'[n][n]
 
 LocalOps == {"UpsertLocal", "DeleteLocal", "LeaveLocal", "CompactLocal"}
 
+\* C13: one call of the real encodeDelta / encodeDigest with maximum packet size
+\* e.pktmax, measured element boundaries e.hdr / e.cum, and the real decoder's
+\* reading of the produced datagram (Packet.tla is the model of the loop)
+EncodeViolations(e) ==
+  LET taken == FlatLen(DeltaOf(e.dec))
+      n == Len(e.cum)
+  IN (IF (e.err # "") # (e.pktmax < e.hdr) THEN {"HeaderError"} ELSE {})
+     \cup (IF e.err = "" /\ e.outlen > e.pktmax THEN {"FitsBudget"} ELSE {})
+     \cup (IF e.err = "" /\ e.outlen # (IF taken = 0 THEN e.hdr ELSE IF taken <= n THEN e.cum[taken] ELSE -2)
+           THEN {"WholeElementsOnly"} ELSE {})
+     \cup (IF e.err = "" /\ taken < n /\ e.cum[taken + 1] <= e.pktmax THEN {"LongestFittingPrefix"} ELSE {})
+     \cup (IF e.err = "" /\ DeltaOf(e.dec) # Trunc(DeltaOf(e.d2), taken) THEN {"DecodeIsPrefix"} ELSE {})
+
+EncodeDigestViolations(e) ==
+  LET taken == Len(e.digdec)
+      n == Len(e.cum)
+  IN (IF (e.err # "") # (e.pktmax < e.hdr) THEN {"HeaderError"} ELSE {})
+     \cup (IF e.err = "" /\ e.outlen > e.pktmax THEN {"FitsBudget"} ELSE {})
+     \cup (IF e.err = "" /\ e.outlen # (IF taken = 0 THEN e.hdr ELSE IF taken <= n THEN e.cum[taken] ELSE -2)
+           THEN {"WholeElementsOnly"} ELSE {})
+     \cup (IF e.err = "" /\ taken < n /\ e.cum[taken + 1] <= e.pktmax THEN {"LongestFittingPrefix"} ELSE {})
+     \cup (IF e.err = "" /\ taken <= Len(e.dig2) /\ DigSeqOf(e.digdec) # SubSeq(DigSeqOf(e.dig2), 1, taken)
+           THEN {"DecodeIsPrefix"} ELSE {})
+
 StepViolations(e) ==
   IF e.op = "Reset" THEN {}
   ELSE
@@ -136,6 +160,28 @@ StepViolations(e) ==
                  /\ net[e.slot].dig[i].id \notin Known(net[e.slot].to)
                  /\ net[e.slot].dig[i].id \in DOMAIN st'[net[e.slot].to]
           THEN {"LeftDigestNeverCreates"} ELSE {})
+    \cup (IF e.op = "UpdateLiveness" /\
+             \E n \in DOMAIN st'[e.a] \ {e.a} :
+                ~st'[e.a][n].left /\ (st'[e.a][n].unreach # (n \in susp[e.a]))
+          THEN {"LivenessApplied"} ELSE {})
+    \cup (IF e.op = "RemoveExpired" /\
+             \E i \in 1..e.thr : i <= Len(armq[e.a]) /\
+                (armq[e.a][i] \in DOMAIN st'[e.a] \/
+                 ~\E j \in DOMAIN e.evts : e.evts[j].t = "expired" /\ e.evts[j].n = armq[e.a][i])
+          THEN {"ExpiryRemoves"} ELSE {})
+    \cup (IF e.op = "RemoveExpired" /\ \E n \in Known(e.a) \ DOMAIN st'[e.a] :
+                ~\E i \in 1..e.thr : i <= Len(armq[e.a]) /\ armq[e.a][i] = n
+          THEN {"OnlyDueRemoved"} ELSE {})
+    \cup (IF e.op = "ClosureEnd" /\ e.flag /\ ~ConvergedLive THEN {"Converged"} ELSE {})
+    \cup (IF e.op = "ClosureEnd" /\ ~e.flag THEN {"ClosureBound"} ELSE {})
+    \cup (IF e.op = "RecvDelta" /\ ~PullProgressFor(e.slot) THEN {"PullProgress"} ELSE {})
+    \cup (IF e.pktmax > 0 /\ e.op \notin {"Encode", "EncodeDigest"} /\
+             \E i \in DOMAIN e.pktlens : e.pktlens[i] > e.pktmax
+          THEN {"FitsBudget"} ELSE {})
+    \cup (IF e.op = "Encode" THEN EncodeViolations(e) ELSE {})
+    \cup (IF e.op = "EncodeDigest" THEN EncodeDigestViolations(e) ELSE {})
+    \cup (IF e.op # "RemoveExpired" /\ \E o \in Node : Known(o) \ DOMAIN st'[o] # {}
+          THEN {"NoSilentRemoval"} ELSE {})
     \cup (IF ~FreshVersionStep THEN {"FreshVersionOnChange"} ELSE {})
     \cup (IF e.op \in {"UpsertLocal", "DeleteLocal"} /\ LiveMap(OwnNext(e.n)) = LiveMap(Own(e.n))
              /\ OwnNext(e.n) # Own(e.n)
@@ -244,5 +290,7 @@ Consumed ==
 \* reported, never a verdict: number of steps that are not spec steps, and how
 \* often the known-finding signatures fired
 DriftReport == l <= Len(Log) \/ PrintT(<<"TRACE-COUNTERS", drift, sig.f2, sig.f4>>)
+\* development aid: stop at the first step that is not a spec step
+NoDriftDbg == drift = 0
 
 =============================================================================
